@@ -199,7 +199,7 @@ def labels_obligation(prop, floor=0):
             for e in it.events:
                 if e.kind != "label-align":
                     continue
-                k = (e.fn, id(e.node))
+                k = (e.fn, id(e.node), bool(e.extra["same"]))  # one construct can be reached with matching and with differing labels
                 if k in seen:
                     continue
                 seen.add(k)
@@ -325,3 +325,41 @@ def constructors_obligation(classes, oid="OX.C"):
 
     return Obligation(oid, "construction from a table copies the 20 fields unchanged, same particles, same order (" + ", ".join(c.split(".")[-1] for c in classes) + ")",
                       run, floor=20 * len(classes))
+
+
+def converters_obligation(specs, oid="OX.V"):
+    """format converters that take a particle list: the list they return carries every particle's complete position (x + shift),
+    orientation and the other fields of the input list -- only the split between x and shift may change (update_coordinates)"""
+    from sa.report import Obligation
+
+    def run(ctx):
+        cols = list(ctx.prog.class_attr("cryomotl.Motl", "motl_columns"))
+        for q, kwargs, assume in specs:
+            m, fn = ctx.prog.func(q)
+            ctx.touched(q)
+            it = Interp(ctx.prog, assume=assume_map(assume))
+            src = motl_frame(ctx.prog, name="input", prefix="in:")
+            r = it.run(q, [src], dict(kwargs))
+            df = r.ret.attrs.get("df") if isinstance(r.ret, Obj) else None
+            if not isinstance(df, Frame):
+                raise Unsupported(f"{q} does not return a particle list", fn)
+            same_rows_same_order(ctx, q, df, src, f"{q.split('.')[-1]} keeps the particles and their order", fn, m)
+            sam = {("in:" + c): half_integer_sampler() for c in ("x", "y", "z", "shift_x", "shift_y", "shift_z")}
+            for c in "xyz":
+                got = mk("add", df.cols[c], df.cols["shift_" + c])
+                want = mk("add", sym("in:" + c), sym("in:shift_" + c))
+                v = tm.equivalent(got, want, samplers=sam, n=30, seed_tag=q + c)
+                ctx.count(1, {"converter": q, "complete position": c, "equal": bool(v)})
+                if not v:
+                    ctx.finding(q, f"complete position {c}", f"{q.split('.')[-1]}: the complete position {c} + shift_{c} of the returned list must "
+                                f"equal that of the input list (it becomes {tm.show(got)[:100]})", last_store(it, df, c) or fn, m, witness=v.witness)
+            for c in cols:
+                if c in ("x", "y", "z", "shift_x", "shift_y", "shift_z"):
+                    continue
+                ctx.count(1)
+                if c not in df.cols or df.cols[c] != sym("in:" + c):
+                    ctx.finding(q, f"field {c}", f"{q.split('.')[-1]}: field {c} of the returned list must be the input's {c}; it becomes "
+                                f"{tm.show(df.cols[c])[:100] if c in df.cols else 'absent'}", last_store(it, df, c) or fn, m)
+
+    return Obligation(oid, "converters: the returned list keeps every particle's complete position, orientation and fields (order kept)", run,
+                      floor=17 * len(specs))
